@@ -5,6 +5,7 @@
 (c) 8 barrier-released threads on their first translation in a fresh process, with yield injection through
     sys.monitoring LINE events in the token-table modules and a 1 microsecond switch interval."""
 import hashlib
+import json
 import itertools
 import os
 import sys
@@ -49,6 +50,13 @@ def corpus(n, rng):
         for k in range(6):
             cells[f'D{k + 1}'] = fns[(i + k) % len(fns)]
         cells['E1'] = '=D1' if i % 2 else '=D2'
+        if i % 3 == 2:
+            # text outside ASCII in a title, a constant and a formula literal: what is returned and what is written must not depend
+            # on the locale encoding of the process
+            cells['C1'] = 'caf\u00e9 \u00fc\u00df \u042f'
+            cells['C2'] = '="\u00f1-"&A1'
+            out.append(wbspec.spec(wbspec.sheet(f'S{i}', cells), wbspec.sheet('T', {'A1': f'=S{i}!D3'}), wbspec.sheet(f'\u041b\u0438\u0441\u0442{i}', {'A1': '\u65e5\u672c', 'B1': '=A1&"!"'})))
+            continue
         out.append(wbspec.spec(wbspec.sheet(f'S{i}', cells), wbspec.sheet('T', {'A1': '=' + f"'S{i}'!D3" if ' ' in f'S{i}' else f'=S{i}!D3'})))
     return out
 
@@ -64,6 +72,10 @@ def plan(tier, seed):
     for hs in seeds:
         for mode in ('fresh', 'after3'):
             shards.append({'kind': 'sha', 'mode': mode, 'n': ncorp, '_env': {'PYTHONHASHSEED': hs}})
+    # the same matrix in processes whose locale encoding, time zone and UTF-8 mode differ
+    for extra in ({'LC_ALL': 'C', 'LANG': 'C', 'PYTHONUTF8': '0', 'PYTHONCOERCECLOCALE': '0'}, {'TZ': 'XYZ-13'}, {'TZ': 'ABC+11', 'PYTHONUTF8': '1'},
+                  {'LC_ALL': 'POSIX', 'PYTHONUTF8': '0', 'PYTHONCOERCECLOCALE': '0', 'TZ': 'UTC'}):
+        shards.append({'kind': 'sha', 'mode': 'fresh', 'n': ncorp, '_env': {'PYTHONHASHSEED': '3', **extra}})
     trials = 10 if tier == 'quick' else 200
     for t in range(trials):
         shards.append({'kind': 'threads', 'trial': t, '_env': {'PYTHONHASHSEED': str(t % 5)}})
@@ -211,7 +223,19 @@ def run_sha(shard, ctx):
             if o.ok != o2.ok or (o.ok and o.value != o2.value):
                 report(r, ID, None, {'workbook': i, 'entry': entry, 'hashseed': os.environ.get('PYTHONHASHSEED')}, 'second translation differs', None, monitor='repeat-identical')
             r.nt(('sha', i, entry is None, os.environ.get('PYTHONHASHSEED'), shard['mode']))
+            if entry is None and o.ok:
+                # the written file holds the returned text (UTF-8), in every process environment
+                from excel2pycl import Parser
+                outp = os.path.join(ctx.workdir, f'w{i}.py')
+                w = pipeline.guarded(lambda: Parser().set_excel_file_path(paths[i]).write_translation(outp), 'translate')
+                r.count('written_files_compared')
+                data = open(outp, 'rb').read() if os.path.exists(outp) else None
+                if not w.ok or data != o.value.encode('utf-8'):
+                    report(r, ID, None, {'workbook': i, 'env': shard.get('_env'), 'encoding': __import__('locale').getpreferredencoding(False)},
+                           w.brief() if not w.ok else {'bytes': None if data is None else len(data), 'sha': None if data is None else hashlib.sha256(data).hexdigest()[:16]},
+                           {'bytes': len(o.value.encode('utf-8')), 'sha': hashlib.sha256(o.value.encode('utf-8')).hexdigest()[:16]}, monitor='written-file-equals-text')
     r.seen('hash_seeds', os.environ.get('PYTHONHASHSEED'))
+    r.seen('process_environments', json.dumps({k: v for k, v in sorted((shard.get('_env') or {}).items()) if k != 'PYTHONHASHSEED'}) + ' encoding=' + __import__('locale').getpreferredencoding(False))
     r.sample({'sha_matrix': {'PYTHONHASHSEED': os.environ.get('PYTHONHASHSEED'), 'mode': shard['mode'], 'workbooks': len(paths)}})
 
 
